@@ -168,3 +168,22 @@ def zero_fill_guard_ok(guards, count, env) -> typing.Tuple[bool, str]:
             return False, (f"the zero fill runs only under `{cast.show(cond)}`: when that is false the output keeps stale bits "
                            "(e.g. the padding of the last byte when the length is not a multiple of 8)")
     return True, ""
+
+
+def early_exit_before(stmts, before_index: int, len_names) -> typing.Tuple[bool, str]:
+    """no return statement precedes the zero fill, except under `<requested length> == 0` (nothing to clear then)"""
+    for st in stmts:
+        if st.index >= before_index:
+            break
+        if st.node.get("kind") == "ReturnStmt":
+            ok = False
+            for kind, cond in st.guards:
+                if kind == "if" and cond[0] == "bin" and cond[1] == "==":
+                    a, b = cond[2], cond[3]
+                    if (is_int(a, 0) and b[0] == "ref" and b[1] in len_names) or (is_int(b, 0) and a[0] == "ref" and a[1] in len_names):
+                        ok = True
+            if not ok:
+                conds = " && ".join(cast.show(c) for _k, c in st.guards) or "always"
+                return False, (f"the routine returns early under `{conds}` before the zero fill: the output keeps stale bytes on that path "
+                               "(e.g. an array that lies entirely past the end of a truncated buffer is not zero-extended)")
+    return True, ""
